@@ -2,6 +2,7 @@ import NfcVerif.Lemmas.Sap
 import NfcVerif.Lemmas.SapSpec
 import NfcVerif.Lemmas.SapSrc
 import NfcVerif.Lemmas.SapEnd
+import NfcVerif.Lemmas.SapSd
 /-!
 # C17 - LLCP addressing: binding, discovery and delivery reach the right socket
 
@@ -431,5 +432,201 @@ theorem connect_peer_is_cc_source (p : Pair) (x : Side) (id d ss : Nat) :
     (((connectFinish p x id (some (.cc d ss))).1.get x).sock id).peer = some ss ∧
     (((connectFinish p x id (some (.cc d ss))).1.get x).sock id).st = .established := by
   simp [connectFinish, get_set, setSock, upd]
+
+/-! ## service discovery with several requests per SNL PDU
+
+`sdAnswer snl (tid, name) = (tid, address registered under name, or 0)` is a function of the ONE
+request and the service name table; everything below is for arbitrary lists: any mix of bound,
+unbound and well-known names in any order, repeated names, repeated transaction identifiers. -/
+
+/-- responder: an SNL PDU with ANY list of requests (and any answers riding along) is answered
+pointwise - the answers queued are the image of the request list under `sdAnswer`, in the same
+order, behind what was queued before; the address tables and all sockets are untouched -/
+theorem resolve_answers_pointwise (b : Llc) (rq : List (Nat × Bytes)) (rs : List (Nat × Nat)) :
+    ∃ b', dispatch b (.snl rq rs) = .ok b' ∧
+      b'.sd.sdres = b.sd.sdres ++ rq.map (sdAnswer b.snl) ∧ abs b' = abs b ∧ b'.sock = b.sock := by
+  obtain ⟨b', h1, h2, h3, h4, h5, _⟩ := dispatch_snl b rq rs
+  exact ⟨b', h1, h2, by simp [abs, h4, h5], h3⟩
+
+/-- ... in particular the answer to a request does not depend on what precedes or follows it in the PDU:
+whatever `pre`, `post` and `rs` are, the answer at the position of `(tid, nm)` is `(tid, address of nm or 0)` -/
+theorem resolve_answer_independent (b : Llc) (pre post : List (Nat × Bytes)) (tid : Nat) (nm : Bytes)
+    (rs : List (Nat × Nat)) :
+    ∃ b', dispatch b (.snl (pre ++ (tid, nm) :: post) rs) = .ok b' ∧
+      b'.sd.sdres[b.sd.sdres.length + pre.length]? = some (tid, (b.snl.lookup nm).getD 0) := by
+  obtain ⟨b', h1, h2, _⟩ := dispatch_snl b (pre ++ (tid, nm) :: post) rs
+  refine ⟨b', h1, ?_⟩
+  rw [h2, List.getElem?_append_right (by omega)]
+  simp [sdAnswer]
+
+/-- the seeded defect C17-r2m3 as an instance: a bound name followed by an unbound one -/
+example : ∃ b', dispatch ((run Pair.init [.socket false .dlc, .bind false 0 (.name (nameS 0))]).a)
+      (.snl [(0, nameS 0), (1, nameS 1), (2, nameSdp), (3, nameSnep)] []) = .ok b' ∧
+    b'.sd.sdres = [(0, 16), (1, 0), (2, 1), (3, 0)] := ⟨_, rfl, by decide +kernel⟩
+
+/-- requester: after an SNL PDU with ANY list of answers the cache entry of a name is the decoded
+value of the LAST answer whose transaction identifier was used for that name (a name no answer belongs to
+keeps its entry); identifiers return to the pool exactly for the answers that belong to a request -/
+theorem answers_cached_pointwise (a : Llc) (rq : List (Nat × Bytes)) (rs : List (Nat × Nat)) (nm : Bytes) :
+    ∃ a', dispatch a (.snl rq rs) = .ok a' ∧
+      a'.sd.cache.lookup nm =
+        (match (answersFor a.sd.sent nm rs).getLast? with
+         | some r => some (decodeSap r.2)
+         | none => a.sd.cache.lookup nm) ∧
+      a'.sd.tids = a.sd.tids ++ (rs.filter fun r => (a.sd.sent.lookup r.1).isSome).map (·.1) :=
+  let ⟨a', h1, h2, h3, _⟩ := dispatch_snl_cache a rq rs nm; ⟨a', h1, h2, h3⟩
+
+/-- requester, answers to a whole list of requests: when `sent` holds the names asked (distinct
+identifiers), every asked name ends up with exactly the responder's address for THAT name -/
+theorem answers_cached_exact (sd : Sd) (rq : List (Nat × Bytes)) (snl : List (Bytes × Nat))
+    (hnd : (rq.map (·.1)).Nodup) (hv : ∀ nm a, snl.lookup nm = some a → a < 64) (nm : Bytes)
+    (hm : nm ∈ rq.map (·.2)) :
+    (sdResponses { sd with sent := sentAll sd.sent rq } (rq.map (sdAnswer snl))).cache.lookup nm =
+      some ((snl.lookup nm).getD 0) :=
+  answers_cached _ rq snl (sentAll_lookup rq _ hnd) hv nm hm
+
+example : (sdResponses { ({} : Sd) with sent := sentAll [] [(7, nameS 0), (9, nameS 1)] }
+    ([(7, nameS 0), (9, nameS 1)].map (sdAnswer [(nameS 0, 16)]))).cache = [(nameS 0, 16), (nameS 1, 0)] := by
+  decide +kernel
+
+/-- packing (`ServiceDiscovery.dequeue`, link MIU 128): answers leave in the order queued, 32 per PDU,
+the rest stays; the requests put into the PDU together with the requests that stay queued are a
+permutation of the queued requests (none lost, none invented), `sent` records exactly those put
+into the PDU; cache and identifier pool are untouched -/
+theorem snl_packing_exact (sd : Sd) (h : sd.sdres ≠ [] ∨ sd.sdreq ≠ []) :
+    ∃ rq sd', sdDequeue sd = some (.snl rq (sd.sdres.take 32), sd') ∧ sd'.sdres = sd.sdres.drop 32 ∧
+      (rq ++ sd'.sdreq).Perm sd.sdreq ∧ sd'.sent = sentAll sd.sent rq ∧
+      sd'.cache = sd.cache ∧ sd'.tids = sd.tids ∧ sd'.dmpdu = sd.dmpdu :=
+  sdDequeue_spec sd h
+
+/-- requests that fit the MIU together leave in ONE PDU in the order the calls queued them -/
+theorem snl_requests_one_pdu (sd : Sd) (hres : sd.sdres = []) (hne : sd.sdreq ≠ [])
+    (hfit : (sd.sdreq.map reqSize).sum ≤ 128) :
+    sdDequeue sd = some (.snl sd.sdreq [], { sd with sdreq := [], sent := sentAll sd.sent sd.sdreq }) :=
+  sdDequeue_all sd hres hne hfit
+
+example : ∃ rq sd', sdDequeue { ({} : Sd) with sdres := (List.range 40).map fun i => (i, 0) } = some (.snl rq ((List.range 32).map fun i => (i, 0)), sd') ∧
+    sd'.sdres = (List.range' 32 8).map fun i => (i, 0) := ⟨_, _, rfl, by decide +kernel⟩
+
+/-- several `resolve()` calls waiting at once: one request per name that is not cached, in the order of
+the calls, each with its own transaction identifier from the front of the pool -/
+theorem concurrent_requests_queued (sd : Sd) (nms : List Bytes) :
+    sdAskAll sd nms =
+      if (uncached sd.cache nms).length ≤ sd.tids.length then
+        some { sd with tids := sd.tids.drop (uncached sd.cache nms).length,
+                       sdreq := sd.sdreq ++ (sd.tids.take (uncached sd.cache nms).length).zip (uncached sd.cache nms) }
+      else none :=
+  sdAskAll_eq nms sd
+
+/-- one waiting call is the `resolve` operation -/
+theorem resolve_many_single (p : Pair) (x : Side) (nm : Bytes)
+    (h : ((p.get x).sd.cache.lookup nm).isSome ∨ (p.get x).sd.tids ≠ []) :
+    apiResolveMany p x [nm] =
+      (apiResolve p x nm).map fun r => (r.1, r.2.map fun o => match o with | .num a => .nums [a] | o => o) :=
+  resolveMany_single p x nm h
+
+/-- END TO END, for every reachable state of the two controllers in which the link is quiet (nothing
+but service discovery has something to send, no lookup in progress): `k` calls `resolve(name_i)`
+waiting at the same time return, each for ITS name, the cached address or the address registered
+under that name at the other controller right now, 0 when it is not registered - for every list of
+names (bound, unbound, well-known, repeated, in any order); no table changes.
+PARTIAL: the requests must fit one SNL PDU (≤ 32 names, ≤ 128 bytes of TLVs) and the identifiers in
+the pool must be distinct (a raw access point at the peer can break that with forged answers);
+longer lists and busy links are covered by the correspondence runs only; a single name whose request
+does not fit the MIU is never resolved at all (`resolve_overlong_counterexample`, open finding). -/
+theorem resolve_many_end_to_end_partial (ops : List Op) (x : Side) (nms : List Bytes)
+    (hqA : Quiet ((run Pair.init ops).get x)) (hqB : Quiet ((run Pair.init ops).get (!x)))
+    (hiA : SdIdle ((run Pair.init ops).get x).sd) (hiB : SdIdle ((run Pair.init ops).get (!x)).sd)
+    (hnd : ((run Pair.init ops).get x).sd.tids.Nodup)
+    (hk : (uncached ((run Pair.init ops).get x).sd.cache nms).length ≤ ((run Pair.init ops).get x).sd.tids.length)
+    (h32 : (uncached ((run Pair.init ops).get x).sd.cache nms).length ≤ 32)
+    (hfit : ((uncached ((run Pair.init ops).get x).sd.cache nms).map fun nm => 3 + nm.length).sum ≤ 128) :
+    ∃ p', apiResolveMany (run Pair.init ops) x nms =
+        .ok (p', .ok (.nums (nms.map (resolved ((run Pair.init ops).get x).sd.cache
+                                               ((run Pair.init ops).get (!x)).snl)))) ∧
+      abs p'.a = abs (run Pair.init ops).a ∧ abs p'.b = abs (run Pair.init ops).b := by
+  obtain ⟨p', h1, h2⟩ := resolveMany_quiet (run Pair.init ops) x nms hqA hqB hiA hiB ((reach_inv ops).get (!x))
+    hnd hk h32 hfit
+  refine ⟨p', h1, ?_, ?_⟩
+  · simp only [abs]; congr 1
+    · funext a; exact h2.1.2.2.1 a
+    · exact h2.1.2.2.2
+  · simp only [abs]; congr 1
+    · funext a; exact h2.2.2.2.1 a
+    · exact h2.2.2.2.2
+
+/-- a history that satisfies the hypotheses, and the concrete outcome: B binds one name, three
+calls at A (bound, unbound, the discovery service itself) -/
+def resolveOps : List Op := [.socket true .dlc, .bind true 0 (.name (nameS 0))]
+
+set_option maxRecDepth 100000 in
+example : (trace Pair.init (resolveOps ++ [.resolveMany false [nameS 0, nameS 1, nameSdp, nameS 0]])).getLast?.map
+    (fun q => match q.2 with | .ok (.nums l) => l | _ => []) = some [16, 0, 1, 16] := by decide +kernel
+
+set_option maxRecDepth 100000 in
+/-- the hypotheses are satisfiable: the initial state is quiet and idle at both controllers -/
+example : ∃ p', apiResolveMany (run Pair.init []) false [nameSdp, nameS 0, nameSdp] = .ok (p', .ok (.nums [1, 0, 1])) ∧
+    abs p'.a = abs Pair.init.a ∧ abs p'.b = abs Pair.init.b :=
+  resolve_many_end_to_end_partial [] false [nameSdp, nameS 0, nameSdp] quiet_init quiet_init sdIdle_init sdIdle_init
+    List.nodup_range (by decide +kernel) (by decide +kernel) (by decide +kernel)
+
+/-! ### a service name that does not fit the link MIU is never resolved (open finding) -/
+
+/-- name resolution returns: the statement ("reach exactly the socket bound under that name or report
+absence") needs every `resolve` on an idle link to come back with an answer -/
+def ResolveReturns : Prop :=
+  ∀ (nm : Bytes), ∃ p' a, apiResolve Pair.init false nm = .ok (p', .ok (.num a))
+
+/-- a request whose TLV exceeds the link MIU (name longer than 125 bytes at MIU 128) is rotated in the
+queue for ever: `ServiceDiscovery.dequeue` leaves the state unchanged and sends an EMPTY SNL PDU, at
+every call -/
+theorem overlong_request_stuck (sd : Sd) (tid : Nat) (nm : Bytes) (h : 125 < nm.length)
+    (hq : sd.sdreq = [(tid, nm)]) (hres : sd.sdres = []) : sdDequeue sd = some (.snl [] [], sd) :=
+  Sap.overlong_request_stuck sd tid nm h hq hres
+
+/-- `urn:nfc:sn:` + 115 × `x` (126 bytes, a well-formed service name that `bind` accepts) -/
+def longName : Bytes := pfxSn ++ List.replicate 115 120
+
+set_option maxRecDepth 100000 in
+theorem resolve_overlong_witness : validName longName = true ∧
+    (match apiResolve Pair.init false longName with | .error .outOfFuel => true | _ => false) = true := by
+  decide +kernel
+
+/-- the statement is false on the current code: `resolve` of a well-formed 126-byte service name does
+not return while the link is up (the model's `outOfFuel` = the `while name not in self.snl: wait()` loop
+of `ServiceDiscovery.resolve` with a request that is never sent) -/
+theorem resolve_overlong_counterexample : ¬ ResolveReturns := by
+  intro h
+  obtain ⟨p', a, hp⟩ := h longName
+  have hw := resolve_overlong_witness.2
+  rw [hp] at hw
+  cases hw
+
+/-! ## connected logical data link sockets -/
+
+/-- a datagram from source `s` is taken only by a socket that is unconnected or connected to `s`
+(so a connected socket never sees datagrams of third parties that arrive after `connect`); together with
+`datagram_delivery` (PDU appended unchanged) and `recvfrom_returns` (payload and source of the PDU are
+returned, whatever the socket is connected to) the source address reported by `recvfrom` is the one the
+datagram was sent with, also for datagrams queued before the socket was (re)connected -/
+theorem datagram_peer_filter (c c' : Llc) (d s : Nat) (m : Bytes) (h : dispatch c (.ui d s m) = .ok c') (j : Nat)
+    (hj : c'.sock j ≠ c.sock j) : (c.sock j).peer = some s ∨ (c.sock j).peer = none :=
+  ui_peer_filter h hj
+
+/-- a datagram from 41 is queued at A's socket (bound at 40), then the socket is connected to 42:
+`recvfrom` still reports 41; a later datagram from 41 is not taken any more, one from 42 is -/
+def connectedOps : List Op :=
+  [.socket false .ldl, .bind false 0 (.addr 40), .socket true .ldl, .bind true 0 (.addr 41), .socket true .ldl,
+   .bind true 1 (.addr 42), .sendto true 0 [170] 40, .xfer true, .connect false 0 (.addr 42), .recvfrom false 0]
+
+def connectedOps2 : List Op :=
+  connectedOps ++ [.sendto true 0 [187] 40, .sendto true 1 [204] 40, .xfer true, .xfer true]
+
+set_option maxRecDepth 100000 in
+example : (trace Pair.init connectedOps).getLast?.map
+      (fun q => match q.2 with | .ok (.data d src) => (d, src) | _ => (none, none)) = some (some [170], some 41) ∧
+    (((run Pair.init connectedOps).a).sock 0).peer = some 42 ∧
+    (((run Pair.init connectedOps2).a).sock 0).recvq = [.ui 40 42 [204]] := by
+  decide +kernel
 
 end NfcVerif.C17
